@@ -1,6 +1,6 @@
 (* The closed-form schedule, stated with the executable solver (no hypothesis about S and E left),
    and the nested tree / flattened graph comparison in one statement. *)
-From AJ Require Import Common.Util Run.RModel Run.RFacts Run.RSchedDef Run.RFlatten Run.RSolve Run.RSched.
+From AJ Require Import Common.Util Run.RModel Run.RFacts Run.RSchedDef Run.RFlatten Run.RSolve Run.RSolveH Run.RSched.
 
 Definition Sof (c : cfg) : nat -> N := tab (fst (solve c)).
 Definition Eof (c : cfg) : nat -> N := tab (snd (solve c)).
@@ -84,7 +84,7 @@ Proof.
 Qed.
 
 Theorem runs_on_computed_scheduleH c h s : wf c = true -> plainH c = true ->
-  solvedH_ok c = true -> slackH_ok c = true -> Reach 3 c h s -> calm c (EofH c) s ->
+  slackH_ok c = true -> Reach 3 c h s -> calm c (EofH c) s ->
   (forall x, x < njobs c -> x <> 0 -> on_schedule c (SofH c) (EofH c) s x) /\
   (forall n, n < njobs c -> j_sched (jc c n) = true ->
      let M := maxl (SofH c n) (map (EofH c) (members c n)) in
@@ -93,8 +93,8 @@ Theorem runs_on_computed_scheduleH c h s : wf c = true -> plainH c = true ->
      (ph (Rn s n) = POver -> (M + shut_len c n <= now s)%N /\ (n <> 0 -> (EofH c n <= now s)%N)) /\
      okph (ph (Rn s n))).
 Proof.
-  intros W P K L R C.
-  assert (HS : is_scheduleH c (SofH c) (EofH c)) by exact (is_scheduleHb_sound c _ _ K).
+  intros W P L R C.
+  assert (HS : is_scheduleH c (SofH c) (EofH c)) by exact (solveH_is_schedule c W).
   assert (HL : slackH c (SofH c) (EofH c)) by exact (slackH_ok_sound c L).
   split.
   - exact (runs_on_scheduleH c (SofH c) (EofH c) h s W P HS HL R C).
